@@ -91,6 +91,8 @@ def _ends_in_jump(stmts):
         return True
     if isinstance(s, ast.If):
         return bool(s.orelse) and _ends_in_jump(s.body) and _ends_in_jump(s.orelse)
+    if isinstance(s, ast.Try) and not s.finalbody:
+        return all(_ends_in_jump(h.body) for h in s.handlers) and _ends_in_jump(s.orelse if s.orelse else s.body)
     return False
 
 
@@ -350,6 +352,16 @@ def _nest(stmts):
     unless it sits in a loop)"""
     out = []
     for i, s in enumerate(stmts):
+        if isinstance(s, ast.Try) and not s.finalbody and stmts[i + 1:] and s.handlers and _has_return([s]) and \
+                all(_ends_in_jump(h.body) for h in s.handlers) and not _ends_in_jump(s.orelse):
+            # every handler leaves: what follows the try runs exactly when no exception was caught = the else clause
+            # (which, like the code after the statement, is not protected by the handlers)
+            s = clone(s)
+            s.orelse = _nest(list(s.orelse) + list(stmts[i + 1:]))
+            for h in s.handlers:
+                h.body = _nest(h.body)
+            out.append(s)
+            return out
         if isinstance(s, ast.If):
             s = ast.copy_location(ast.If(test=s.test, body=_nest(s.body), orelse=_nest(s.orelse)), s)
             rest = stmts[i + 1:]
@@ -416,8 +428,7 @@ def _expand(stmts, cont, tail, in_loop=False):
                 h2.body = _expand(h.body, cont, True, in_loop) or [ast.copy_location(ast.Pass(), s)]
             out.append(s2)
             return out
-        elif isinstance(s, ast.Try) and not s.finalbody and not _has_return(s.body) and not _has_return(s.orelse) and \
-                _has_return([s]):
+        elif isinstance(s, ast.Try) and not s.finalbody and not _has_return(s.body) and _has_return([s]):
             # returns in the handlers only: a handler is not protected by its own try, so the continuation means the same there
             # (it must not re-raise the handled exception by a bare raise of its own: checked on what cont produces)
             s2 = clone(s)
@@ -426,6 +437,8 @@ def _expand(stmts, cont, tail, in_loop=False):
                 if any(isinstance(x, ast.Raise) and x.exc is None for b in h2.body for x in ast.walk(b)) and \
                         not any(isinstance(x, ast.Raise) and x.exc is None for b in h.body for x in ast.walk(b)):
                     raise Fail("continuation with a bare raise inside a handler")
+            if _has_return(s.orelse):
+                s2.orelse = _expand(s.orelse, cont, last, in_loop) or [ast.copy_location(ast.Pass(), s)]
             s = s2
         elif isinstance(s, (ast.Try, ast.With)) and _has_return([s]):
             raise Fail("return under try/with")
@@ -470,7 +483,8 @@ def _inline_stmt0(st, helper, call, caller, mode, extra=None):
                 raise Fail("early return in value helper")
             new = clone(st)
             new.value = v if v is not None else ast.Constant(value=None)
-            return [loc(new)]
+            seq = _sequential(new)
+            return [loc(x) for x in seq] if seq is not None else [loc(new)]
     elif mode == "if":
         negated = extra
         then, other = (st.orelse, st.body) if negated else (st.body, st.orelse)   # then: helper returned truthy
@@ -517,6 +531,27 @@ def _inline_stmt0(st, helper, call, caller, mode, extra=None):
     return prelude + new
 
 
+def _sequential(st):
+    """`a, b, c = (x, y, z)` -> `a = x; b = y; c = z` when no later value reads an earlier target (plain names only): the
+    parallel assignment a value-returning helper leaves behind"""
+    if not (isinstance(st, ast.Assign) and len(st.targets) == 1 and isinstance(st.targets[0], (ast.Tuple, ast.List)) and
+            isinstance(st.value, (ast.Tuple, ast.List)) and len(st.value.elts) == len(st.targets[0].elts)):
+        return None
+    ts, vs = st.targets[0].elts, st.value.elts
+    if not all(isinstance(t, ast.Name) for t in ts) or any(isinstance(v, ast.Starred) for v in vs):
+        return None
+    for i, t in enumerate(ts):
+        for v in vs[i + 1:]:
+            if any(isinstance(x, ast.Name) and x.id == t.id for x in ast.walk(v)):
+                return None
+    out = []
+    for t, v in zip(ts, vs):
+        if isinstance(v, ast.Name) and v.id == t.id:
+            continue
+        out.append(ast.fix_missing_locations(ast.copy_location(ast.Assign(targets=[ast.Name(id=t.id, ctx=ast.Store())], value=v), st)))
+    return out
+
+
 def _self_assign(st):
     """`x = x` / `x, y = (x, y)`: left over when a helper's locals coincide with the variables its result is assigned to"""
     if isinstance(st, ast.Assign) and len(st.targets) == 1:
@@ -534,7 +569,7 @@ def _call_of(e, helpers, cls):
     if not isinstance(e, ast.Call):
         return None
     f = e.func
-    if isinstance(f, ast.Name):
+    if isinstance(f, ast.Name) and helpers.get((None, f.id)) is not None:
         return helpers.get((None, f.id))
     if isinstance(f, ast.Attribute) and isinstance(f.value, ast.Name) and cls is not None:
         if f.value.id in ("self", "cls") or f.value.id == cls:
@@ -820,7 +855,13 @@ def inline_new_helpers(tree, ref_mod, known_names):
             uniq[k[1]] = h
     here = import_map(tree)
     for f, h in NEW_UNIQUE.items():
-        if f not in uniq and h.relpath != getattr(tree, "_relpath", None) and all(here.get(g) == h.imports.get(g) and g in here for g in h.free):
+        if f in uniq or h.relpath == getattr(tree, "_relpath", None):
+            continue
+        missing = [g for g in h.free if not (g in here and here.get(g) == h.imports.get(g))]
+        # a plain `import <library module>` the helper's module has and this one lacks can be added here
+        if all(h.imports.get(g, ("?",))[0] == "import" and not str(h.imports[g][1]).startswith("ioflo") and g not in here and
+               g == h.imports[g][1] for g in missing):
+            h.needs_imports = missing
             uniq[f] = h
     helpers["__unique__"] = uniq
 
@@ -838,6 +879,34 @@ def inline_new_helpers(tree, ref_mod, known_names):
             elif isinstance(n, ast.ClassDef) and cls is None:
                 visit(n.body, n.name)
     visit(tree.body, None)
+    # module-level statements (package __init__ files run their import loops there)
+    if isinstance(tree, ast.Module):
+        top = [st for st in tree.body if not isinstance(st, (ast.FunctionDef, ast.AsyncFunctionDef, ast.ClassDef))]
+        if any(isinstance(x, ast.Call) and _call_of(x, helpers, None) is not None for st in top if isinstance(st, ast.Expr) for x in [st.value]):
+            pseudo = ast.FunctionDef(name="<module>", args=ast.arguments(posonlyargs=[], args=[], kwonlyargs=[], kw_defaults=[], defaults=[]),
+                                     body=top, decorator_list=[])
+            new_body = []
+            for st in tree.body:
+                if isinstance(st, ast.Expr) and isinstance(st.value, ast.Call) and _call_of(st.value, helpers, None) is not None:
+                    try:
+                        rep = _inline_stmt(st, _call_of(st.value, helpers, None), st.value, pseudo, "expr")
+                        stats["inlined"] = stats.get("inlined", 0) + 1
+                        new_body.extend(rep or [ast.copy_location(ast.Pass(), st)])
+                        continue
+                    except Fail as ex:
+                        stats.setdefault("failed", []).append(str(ex))
+                new_body.append(st)
+            tree.body = new_body
+    need = sorted({g for h in uniq.values() if getattr(h, "used", 0) and h.relpath != getattr(tree, "_relpath", None)
+                   for g in getattr(h, "needs_imports", [])})
+    if need and isinstance(tree, ast.Module):
+        at = 0
+        while at < len(tree.body) and (_strip_doc(tree.body[at:at + 1]) == [] or
+                                       (isinstance(tree.body[at], ast.ImportFrom) and tree.body[at].module == "__future__")):
+            at += 1
+        for g in need:
+            if not any(isinstance(st, ast.Import) and any((a.asname or a.name) == g for a in st.names) for st in tree.body):
+                tree.body.insert(at, ast.Import(names=[ast.alias(name=g, asname=None)]))
     # a helper with no call left in the module has been folded into its callers: the copy that remains is dead as far as this
     # module is concerned; who-may-write rules attribute its effects to the callers (the expanded copies), not to it
     bases = helpers.pop("__bases__", {})
